@@ -168,7 +168,7 @@ func c01() {
 	// strings: every escapable byte at every offset of strings of length 0..24, both HTML settings
 	for n := 0; n <= 24; n++ {
 		for pos := 0; pos < n; pos++ {
-			for _, c := range []string{"\"", "\\", "<", ">", "&", "\n", "\t", "\x00", "\x1f", "\x7f", "\x80", "\xff", "é", " ", " ", "\xe2\x80", "😀", "\xed\xa0\x80"} {
+			for _, c := range []string{"\"", "\\", "<", ">", "&", "\n", "\t", "\x00", "\x1f", "\x7f", "\x80", "\xff", "é", " ", " ", "\xe2\x80", "😀", "\xed\xa0\x80", "\ufffd", "\uffff"} {
 				s := strings.Repeat("a", pos) + c + strings.Repeat("b", n-pos-1)
 				jEscape([]byte(s))
 			}
